@@ -285,6 +285,8 @@ func (f *FieldCopyToGenerator) genOptionalEmbedValue(fieldName string, g *j.Grou
 	g.If(j.Id("obj." + f.ParentIsOptionalEmbedFieldName).Op("!=").Nil()).Block(
 		j.Id("e").Op("=").Id(fieldName),
 	)
+	// a message without fields is never read
+	g.Id("_").Op("=").Id("e")
 
 	return "e"
 }
